@@ -541,6 +541,12 @@ func init() {
 	intrinsics["sync/atomic.AddUint32"] = atomicAdd(intInfo{32, false})
 	intrinsics["sync/atomic.AddInt64"] = atomicAdd(intInfo{64, true})
 	intrinsics["sync/atomic.AddUint64"] = atomicAdd(intInfo{64, false})
+	intrinsics["sync/atomic.CompareAndSwapPointer"] = atomicCAS
+	intrinsics["sync/atomic.SwapPointer"] = atomicSwap
+	intrinsics["sync/atomic.SwapInt32"] = atomicSwap
+	intrinsics["sync/atomic.SwapUint32"] = atomicSwap
+	intrinsics["sync/atomic.SwapInt64"] = atomicSwap
+	intrinsics["sync/atomic.SwapUint64"] = atomicSwap
 	intrinsics["sync/atomic.CompareAndSwapInt32"] = atomicCAS
 	intrinsics["sync/atomic.CompareAndSwapUint32"] = atomicCAS
 	intrinsics["sync/atomic.CompareAndSwapInt64"] = atomicCAS
@@ -616,6 +622,73 @@ func init() {
 		in.pools[pool] = append(in.pools[pool], args[1])
 		return nil
 	}
+	// sync.Map as an ordinary map from interface keys to interface values (its operations are synchronised; Range is
+	// not modelled)
+	syncMapOf := func(in *Interp, recv Value, create bool) *Map {
+		p := recv.(*Value)
+		if p == nil {
+			in.throwNilDeref()
+		}
+		if m, ok := in.syncMaps[p]; ok {
+			return m
+		}
+		if !create {
+			return nil
+		}
+		if in.syncMaps == nil {
+			in.syncMaps = map[*Value]*Map{}
+		}
+		m := newMap(types.NewInterfaceType(nil, nil))
+		in.syncMaps[p] = m
+		return m
+	}
+	intrinsics["(*sync.Map).Load"] = func(in *Interp, caller *frame, fn *ssa.Function, args []Value) Value {
+		in.syncUse("sync.Map.Load")
+		if v, ok := in.mapLookup(syncMapOf(in, args[0], false), args[1]); ok {
+			return Tuple{v, true}
+		}
+		return Tuple{Iface{}, false}
+	}
+	intrinsics["(*sync.Map).Store"] = func(in *Interp, caller *frame, fn *ssa.Function, args []Value) Value {
+		in.syncUse("sync.Map.Store")
+		in.mapUpdate(syncMapOf(in, args[0], true), args[1], args[2])
+		return nil
+	}
+	intrinsics["(*sync.Map).LoadOrStore"] = func(in *Interp, caller *frame, fn *ssa.Function, args []Value) Value {
+		in.syncUse("sync.Map.LoadOrStore")
+		m := syncMapOf(in, args[0], true)
+		if v, ok := in.mapLookup(m, args[1]); ok {
+			return Tuple{v, true}
+		}
+		in.mapUpdate(m, args[1], args[2])
+		return Tuple{args[2], false}
+	}
+	intrinsics["(*sync.Map).Delete"] = func(in *Interp, caller *frame, fn *ssa.Function, args []Value) Value {
+		in.syncUse("sync.Map.Delete")
+		in.mapDelete(syncMapOf(in, args[0], false), args[1])
+		return nil
+	}
+	intrinsics["(*sync.Map).Range"] = func(in *Interp, caller *frame, fn *ssa.Function, args []Value) Value {
+		in.unsupported("sync.Map.Range")
+		return nil
+	}
+	intrinsics["maps.clone"] = func(in *Interp, caller *frame, fn *ssa.Function, args []Value) Value {
+		i := args[0].(Iface)
+		m, ok := i.V.(*Map)
+		if !ok {
+			in.unsupported("maps.clone of a non-map")
+		}
+		if m == nil {
+			return i
+		}
+		c := newMap(m.tKey)
+		for k := range m.keys {
+			if !m.dead[k] {
+				in.mapUpdate(c, m.keys[k], copyVal(m.vals[k]))
+			}
+		}
+		return Iface{T: i.T, V: c}
+	}
 	intrinsics["internal/stringslite.Clone"] = func(in *Interp, caller *frame, fn *ssa.Function, args []Value) Value { return args[0] }
 	intrinsics["strings.Clone"] = func(in *Interp, caller *frame, fn *ssa.Function, args []Value) Value { return args[0] }
 	intrinsics["internal/abi.NoEscape"] = func(in *Interp, caller *frame, fn *ssa.Function, args []Value) Value { return args[0] }
@@ -640,7 +713,21 @@ func init() {
 	intrinsics["(time.Time).UnixNano"] = func(in *Interp, caller *frame, fn *ssa.Function, args []Value) Value { return int64(0) }
 	intrinsics["(time.Time).Unix"] = func(in *Interp, caller *frame, fn *ssa.Function, args []Value) Value { return int64(0) }
 	intrinsics["math/rand.NewSource"] = func(in *Interp, caller *frame, fn *ssa.Function, args []Value) Value { return Iface{} }
-	intrinsics["math/rand.New"] = func(in *Interp, caller *frame, fn *ssa.Function, args []Value) Value { return (*Value)(nil) }
+	// rand.New gives a generator object whose state is one cell: every draw reads and writes it (plain accesses, so a
+	// generator shared by concurrent callers shows up in the access log) and returns an environment-chosen value
+	intrinsics["math/rand.New"] = func(in *Interp, caller *frame, fn *ssa.Function, args []Value) Value {
+		cell := zero(fn.Signature.Results().At(0).Type().(*types.Pointer).Elem())
+		return &cell
+	}
+	intrinsics["(*math/rand.Rand).Intn"] = func(in *Interp, caller *frame, fn *ssa.Function, args []Value) Value {
+		r := args[0].(*Value)
+		if r == nil {
+			in.throwNilDeref()
+		}
+		in.noteRead(r)
+		in.noteWrite(r)
+		return intrinsics["math/rand.Intn"](in, caller, fn, args[1:])
+	}
 	intrinsics["math/rand.Intn"] = func(in *Interp, caller *frame, fn *ssa.Function, args []Value) Value {
 		// environment nondeterminism: any value in [0, n)
 		in.nondetUse("math/rand.Intn")
@@ -656,6 +743,39 @@ func init() {
 		return in.fromTerm(t, intInfo{64, true})
 	}
 	intrinsics["os.ReadFile"] = func(in *Interp, caller *frame, fn *ssa.Function, args []Value) Value { return in.vfsReadFile(fn, args[0]) }
+	// os.Open / io.ReadAll / (*os.File).Close on the virtual file system (used by the repository's test helpers)
+	intrinsics["os.Open"] = func(in *Interp, caller *frame, fn *ssa.Function, args []Value) Value {
+		r := in.vfsReadFile(fn, args[0]).(Tuple)
+		ft := fn.Signature.Results().At(0).Type().(*types.Pointer)
+		if e, ok := r[1].(Iface); ok && e.T != nil {
+			var nilp *Value
+			return Tuple{nilp, r[1]}
+		}
+		cell := zero(ft.Elem())
+		p := &cell
+		if in.openFiles == nil {
+			in.openFiles = map[*Value][]Value{}
+		}
+		in.openFiles[p] = r[0].([]Value)
+		return Tuple{p, Iface{}}
+	}
+	intrinsics["(*os.File).Close"] = func(in *Interp, caller *frame, fn *ssa.Function, args []Value) Value { return Iface{} }
+	intrinsics["io.ReadAll"] = func(in *Interp, caller *frame, fn *ssa.Function, args []Value) Value {
+		if r, ok := args[0].(Iface); ok {
+			if p, ok := r.V.(*Value); ok {
+				if content, ok := in.openFiles[p]; ok {
+					out := make([]Value, len(content))
+					copy(out, content)
+					in.openFiles[p] = nil
+					return Tuple{out, Iface{}}
+				}
+			}
+		}
+		if fn.Blocks == nil {
+			fn.Pkg.Build()
+		}
+		return in.callSSA(caller, fn, in.ssaInfo(fn), args, nil)
+	}
 	intrinsics["path/filepath.Abs"] = func(in *Interp, caller *frame, fn *ssa.Function, args []Value) Value {
 		if _, isSym := args[0].(*SymStr); isSym {
 			// interpret the library's own Abs (Clean/Join are pure Go); only the working directory is virtual
@@ -692,6 +812,9 @@ func init() {
 		return in.vfsWalk(caller, fn, args[0], args[1])
 	}
 	intrinsics["errors.Is"] = func(in *Interp, caller *frame, fn *ssa.Function, args []Value) Value { return in.errorsIs(caller, args[0].(Iface), args[1].(Iface)) }
+	intrinsics["errors.As"] = func(in *Interp, caller *frame, fn *ssa.Function, args []Value) Value {
+		return in.errorsAs(caller, args[0].(Iface), args[1].(Iface))
+	}
 	registerReflect()
 }
 
@@ -718,6 +841,15 @@ func atomicAdd(ii intInfo) intrinsicFn {
 		in.inAtomic = false
 		return nv
 	}
+}
+
+func atomicSwap(in *Interp, caller *frame, fn *ssa.Function, args []Value) Value {
+	in.syncUse(fn.Name())
+	old := in.loadPtr(args[0])
+	in.inAtomic = true
+	in.storePtr(args[0], args[1])
+	in.inAtomic = false
+	return old
 }
 
 func atomicCAS(in *Interp, caller *frame, fn *ssa.Function, args []Value) Value {
@@ -773,6 +905,44 @@ func (in *Interp) errorsIs(caller *frame, err, target Iface) Value {
 		}
 		if _, isSlice := m.Signature.Results().At(0).Type().Underlying().(*types.Slice); isSlice {
 			return false
+		}
+		r := in.callFunction(caller, m, []Value{err.V}, nil)
+		err = r.(Iface)
+	}
+	return false
+}
+
+// errorsAs: errors.As(err, target) for a target that points to a variable of interface or concrete type.
+func (in *Interp) errorsAs(caller *frame, err, target Iface) Value {
+	pt, ok := target.T.(*types.Pointer)
+	cell, ok2 := target.V.(*Value)
+	if target.T == nil || !ok || !ok2 || cell == nil {
+		in.throw("explicit", "errors: target must be a non-nil pointer", Iface{T: types.Typ[types.String], V: "errors: target must be a non-nil pointer"})
+	}
+	want := pt.Elem()
+	wantIface, isIface := want.Underlying().(*types.Interface)
+	for depth := 0; depth < 32; depth++ {
+		if err.T == nil {
+			return false
+		}
+		if isIface {
+			if types.Implements(err.T, wantIface) {
+				in.storePtr(cell, err)
+				return true
+			}
+		} else if types.Identical(err.T, want) {
+			in.storePtr(cell, err.V)
+			return true
+		}
+		if m := in.lookupMethod(err.T, "As"); m != nil {
+			in.unsupported("errors.As through an As method")
+		}
+		m := in.lookupMethod(err.T, "Unwrap")
+		if m == nil || m.Signature.Results().Len() != 1 {
+			return false
+		}
+		if _, isSlice := m.Signature.Results().At(0).Type().Underlying().(*types.Slice); isSlice {
+			in.unsupported("errors.As through Unwrap() []error")
 		}
 		r := in.callFunction(caller, m, []Value{err.V}, nil)
 		err = r.(Iface)
